@@ -6,6 +6,7 @@ META = {'bounds': 'body state functions: chunks <= 4-5 bytes from symbolic pre-s
 def obligations(tier):
     obs = [so.req_step(s, n=5) for s in (9, 11, 12, 13)] + [so.res_step(s, n=5) for s in (5, 6, 8, 9, 10)]
     obs += [so.res_step(4, n=4)] + [o for o in __import__('C17').obligations(tier) if o.name.startswith('num.chunked_length') or o.name.startswith('num.content_length')]
+    obs += [__import__('hdrobs').smuggle(3)]       # framing decision: every spelling of a chunked Transfer-Encoding selects the chunked body states
     obs += so.chunked('req', (1, 2)) + so.chunked('res', (1, 2))
     if tier == 'thorough': obs += so.chunked('req', (3,), 'thorough') + so.chunked('res', (3,), 'thorough')
     obs += [o for o in txobs.complete_all('quick') if 'finalize' not in o.name] + [txobs.acct()]
